@@ -206,3 +206,22 @@ func (e *Env) CheckAllVersions(universe [][]byte, maxOld int) {
 
 var _ Reader = (*iavl.ImmutableTree)(nil)
 var _ Reader = (*iavl.MutableTree)(nil)
+
+// ProofCheckable reports whether the ICS-23 verifier can judge a proof for key k in a version with
+// contents snap: ics23's LeafOp rejects empty values, so a membership proof of a key with an empty
+// value, and a non-membership proof whose neighbour has an empty value, cannot verify whatever the
+// tree does (a limit of the trusted verifier, not of iavl).
+func ProofCheckable(snap model.Snap, k []byte) bool {
+	if v, ok := snap[string(k)]; ok {
+		return len(v) > 0
+	}
+	keys := snap.Keys()
+	i := sort.SearchStrings(keys, string(k))
+	if i > 0 && len(snap[keys[i-1]]) == 0 {
+		return false
+	}
+	if i < len(keys) && len(snap[keys[i]]) == 0 {
+		return false
+	}
+	return true
+}
